@@ -21,7 +21,25 @@ import os
 import numpy as np
 
 from lib import core
-from lib.core import Result, f2b, b2f
+from lib.core import Result, b2f
+from lib.core import f2b as _f2b
+
+NEG_ZERO = 0x8000000000000000
+
+
+def f2b(x):
+    """bit pattern, with -0.0 identified with 0.0 (equal values; the engine returns +0.0 for 0 * negative)"""
+    b = _f2b(x)
+    return 0 if b == NEG_ZERO else b
+
+
+def unsign(x):
+    """the same identification on a JSON answer of the model"""
+    if isinstance(x, list):
+        return [unsign(v) for v in x]
+    if isinstance(x, dict):
+        return {k: unsign(v) for k, v in x.items()}
+    return 0 if x == NEG_ZERO and not isinstance(x, bool) else x
 
 READY = True
 MANIFEST = dict(
@@ -185,7 +203,7 @@ def gen_table(rng, panelable=None, dup=False):
         index = sorted(rng.sample(range(3 * n + 2), n))
     else:
         index = rng.sample(range(-3, 3 * n + 2), n)
-    return {'cols': cols, 'index': index, 'rows': rows, 'int_cols': int_cols}
+    return {'cols': cols, 'index': index, 'rows': rows, 'int_cols': int_cols, 'panelable': bool(panelable)}
 
 
 def gen_ops(rng, table, allow_known=False):
@@ -208,6 +226,8 @@ def gen_ops(rng, table, allow_known=False):
         elif r < 0.45:
             ops.append(['scale', rng.choice([c for c in cols if c != 'id'] or cols), f2b(rng.choice([0.5, 2.0, -1.0, 0.25, 0.0, 8.0, 1.0]))])
         elif r < 0.55:
+            if not (allow_known or table.get('panelable')):
+                continue   # a refused panel() is the shape of a listed finding: dedicated stream only
             ops.append(['panel', 'id'])
             panel = True
         elif r < 0.66:
@@ -342,13 +362,18 @@ def run_ops_case(ctx, res, case):
             vars_ok = lambda fm: all(v in before['cols'] for v in _vars(fm))  # noqa: E731
             # ------------------------------------------------------------------ state-changing operations
             if op[0] in ('remove', 'add_column', 'define_variable', 'scale', 'panel'):
+                if (op[0] == 'scale' and op[1] not in before['cols']) or (op[0] == 'panel' and op[1] not in before['cols']):
+                    res.tally('skipped: column absent')
+                    continue
                 if op[0] == 'remove':
                     call = ['remove', op[1]]
                     o = outcome(lambda: d.remove(to_expr(op[1])))
                 elif op[0] in ('add_column', 'define_variable'):
                     call = ['add_column', op[1], op[2]]
-                    o = outcome(lambda: (d.add_column if op[0] == 'add_column' else d.define_variable)(to_expr(op[2]), op[1]) if op[0] == 'add_column'
-                                else d.define_variable(op[1], to_expr(op[2])))
+                    if op[0] == 'add_column':
+                        o = outcome(lambda: d.add_column(to_expr(op[2]), op[1]))
+                    else:
+                        o = outcome(lambda: d.define_variable(op[1], to_expr(op[2])))
                 elif op[0] == 'scale':
                     call = ['scale', op[1], op[2]]
                     o = outcome(lambda: d.scale_column(op[1], b2f(op[2])))
@@ -420,6 +445,11 @@ def run_ops_case(ctx, res, case):
                 req = {'op': 'step', 'db': for_model(before), 'call': call}
 
                 def cb(ans, before=before, after=after, o=o, op=op, info=info, unique=unique):
+                    ans = unsign(ans)
+                    for key in ('repaired', 'as_coded'):
+                        st = ans.get(key, {}).get('ok')
+                        if st is not None and st.get('panel') is None and st.get('map') == []:
+                            st['map'] = None
                     m = ans.get('repaired', {})
                     if 'err' in m:
                         if o[0] != 'err' or o[1] != m['err']:
@@ -447,6 +477,9 @@ def run_ops_case(ctx, res, case):
                 ctx.batch.add(req, cb)
                 continue
             # ------------------------------------------------------------------ read-only operations
+            if (op[0] in ('count', 'groups') and op[1] not in before['cols']) or (op[0] == 'values' and not vars_ok(op[1])):
+                res.tally('skipped: column absent')
+                continue
             if op[0] == 'split':
                 o = outcome(lambda: d.split(op[1], groups=op[2]))
                 after = capture(d)
@@ -499,7 +532,7 @@ def run_ops_case(ctx, res, case):
                 if after != before:
                     res.violate(f'step {step} {op[0]} changed the database', info, _brief(after), _brief(before), where='Database.sample')
                 if o[0] == 'err':
-                    if not (op[0] == 'sample_map' and before['panel'] is None):
+                    if not (op[0] == 'sample_map' and before['panel'] is None) and before['rows']:
                         res.violate(f'step {step} {op[0]} raised {o[1]}', info, o[1], 'a sample', where='Database.sample')
                     continue
                 if op[0] == 'sample':
@@ -537,7 +570,7 @@ def run_ops_case(ctx, res, case):
                 if not op[1]:
                     continue  # empty selection: Database() refuses an empty table
                 ctx.batch.add({'op': 'extract', 'db': for_model(before), 'pos': op[1]},
-                              lambda a, o=o, info=info: None if ((('ok' in a) and o[0] == 'ok' and a['ok'] == frame_rows(o[1].data)) or (('err' in a) and o[0] == 'err' and a['err'] == o[1]))
+                              lambda a, o=o, info=info: None if ((('ok' in a) and o[0] == 'ok' and unsign(a['ok']) == frame_rows(o[1].data)) or (('err' in a) and o[0] == 'err' and a['err'] == o[1]))
                               else res.diverge(f'step {info["step"]} extract_rows', info, a, o[1] if o[0] == 'err' else frame_rows(o[1].data)))
             elif op[0] == 'count':
                 o = outcome(lambda: int(d.count(op[1], b2f(op[2]))))
@@ -552,6 +585,9 @@ def run_ops_case(ctx, res, case):
                 if before['panel'] is None:
                     if o[0] != 'err':
                         res.violate(f'step {step} flattening a non-panel database did not raise', info, 'ok', 'BiogemeError', where='Database.generate_flat_panel_dataframe')
+                    continue
+                if not before['rows']:
+                    res.tally('flatten of an emptied table (any outcome accepted)')
                     continue
                 if o[0] == 'err':
                     res.violate(f'step {step} generate_flat_panel_dataframe raised {o[1]}', info, o[1], 'flat table', where='Database.generate_flat_panel_dataframe')
@@ -577,7 +613,7 @@ def run_ops_case(ctx, res, case):
                 if got != exp:
                     res.violate(f'step {step} generate_flat_panel_dataframe differs from the observations of the table', info, _brief(got), _brief(exp), where='Database.generate_flat_panel_dataframe')
                 ctx.batch.add({'op': 'flatten', 'db': for_model(before), 'identical': op[1]},
-                              lambda a, got=got, info=info: None if {x[0]: {n: v for n, v in x[1]} for x in a.get('ok', [])} == got
+                              lambda a, got=got, info=info: None if {x[0]: {n: v for n, v in x[1]} for x in unsign(a.get('ok', []))} == got
                               else res.diverge(f'step {info["step"]} flatten', info, _brief(a), _brief(got)))
             elif op[0] == 'values':
                 o = outcome(lambda: [f2b(float(v)) for v in d.values_from_database(to_expr(op[1]))])
@@ -587,7 +623,7 @@ def run_ops_case(ctx, res, case):
                 elif o[0] == 'err' and rd and vars_ok(op[1]):
                     res.violate(f'step {step} values_from_database raised {o[1]}', info, o[1], exp, where='Database.values_from_database')
                 ctx.batch.add({'op': 'eval', 'db': for_model(before), 'fm': op[1]},
-                              lambda a, o=o, info=info: None if (a.get('ok') == o[1] if o[0] == 'ok' else a.get('err') == o[1]) else res.diverge(f'step {info["step"]} values_from_database', info, a, o[1]))
+                              lambda a, o=o, info=info: None if (unsign(a.get('ok')) == o[1] if o[0] == 'ok' else a.get('err') == o[1]) else res.diverge(f'step {info["step"]} values_from_database', info, a, o[1]))
             elif op[0] == 'groups':
                 import biogeme.tools.database as tdb
 
@@ -736,17 +772,20 @@ def check(ctx) -> Result:
     for c in CORPUS:
         run_case(ctx, res, c)
         res.tally('corpus')
-    for _ in range(ctx.n(350, 6000)):
+    for _ in range(ctx.n(2500, 30000)):
         run_case(ctx, res, gen_case(rng))
     # dedicated streams for the shapes of the known findings
-    for _ in range(ctx.n(12, 150)):
+    for _ in range(ctx.n(60, 600)):
         t = gen_table(rng, dup=True)
         run_case(ctx, res, {'kind': 'ops', 'table': t, 'ops': gen_ops(rng, t)[:4], 'np_seed': rng.randint(0, 2**31 - 1)})
-    for _ in range(ctx.n(15, 200)):
+    for _ in range(ctx.n(80, 1000)):
         t = gen_table(rng, panelable=True)
         ops = [['panel', 'id']] + gen_ops(rng, t, allow_known=True)
         run_case(ctx, res, {'kind': 'ops', 'table': t, 'ops': ops, 'np_seed': rng.randint(0, 2**31 - 1)})
-    check_split_model(ctx, res, rng, ctx.n(60, 600))
+    for _ in range(ctx.n(30, 300)):
+        t = gen_table(rng, panelable=False)
+        run_case(ctx, res, {'kind': 'ops', 'table': t, 'ops': [['panel', 'id']] + gen_ops(rng, t)[:3], 'np_seed': rng.randint(0, 2**31 - 1)})
+    check_split_model(ctx, res, rng, ctx.n(200, 2000))
     check_array_split(ctx, res)
     ctx.batch.flush()
     ctx.batch.flush()  # callbacks of the split model queue a second round
